@@ -41,6 +41,8 @@ func main() {
 	switch fam {
 	case "coll":
 		err = famColl(w, *seed, *n, *labels, *mode, *replay)
+	case "readonly":
+		err = famReadOnly(w, *seed, *n)
 	case "index":
 		if *mode == "api" {
 			err = famIndexAPI(w, *seed, *n)
